@@ -1,3 +1,174 @@
 // ---------------------------------------------------------------------------------------------
-// theorems: lemmas over the contracts above (proved, not assumed)
+// theorems: lemmas over the contracts above (proved, not assumed). Naming: thm_<property ids>_<what>;
+// the check attributes a failing theorem to the properties in its name.
 // ---------------------------------------------------------------------------------------------
+pub mod thm {
+    use super::*;
+    use super::lib::*;
+
+    // C04: the global invariant implies the state-local one every runtime function requires
+    pub proof fn thm_C04_wf_implies_inv<'a>(s: ParseState<'a>, input: Seq<u8>)
+        requires s.wf(input),
+        ensures s.inv(),
+    {
+    }
+
+    // C04/C01: a cursor move established by advance()/advance_safe() keeps the cursor on a character
+    // boundary inside the input and never moves backwards ("never gives characters back")
+    pub proof fn thm_C04_C01_moved_preserves_wf<'a>(s: ParseState<'a>, r: ParseState<'a>, n: int, input: Seq<u8>)
+        requires s.wf(input), s.moved(r, n),
+        ensures r.wf(input), r.inv(), r.idx() >= s.idx(), r.idx() <= input.len(),
+    {
+        broadcast use group_lib;
+        let b = s.bytes();
+        assert(r.bytes() =~= input.subrange(r.idx() as int, input.len() as int));
+        lemma_boundary_compose(input, s.idx() as int, n);
+    }
+
+    // C04/C01/C02: every successful terminal match (the `matched` postcondition of all eight matchers)
+    // leaves a well-formed state at or after the old one
+    pub proof fn thm_C04_C01_matched_wf<'a, T>(state: ParseState<'a>, r: ParseResult<'a, T>, v: T, n: int, input: Seq<u8>)
+        requires state.wf(input), matched(state, r, v, n),
+        ensures r matches Ok(ok) && ok.state.wf(input) && ok.state.idx() == state.idx() + n && ok.state.far() == state.far(),
+    {
+        thm_C04_C01_moved_preserves_wf(state, r->Ok_0.state, n, input);
+    }
+
+    // C10/C04: every error leaving a terminal matcher (the `failed` postcondition) is on a character
+    // boundary inside the input, not before the current offset, and is either the matcher's own failure at
+    // the current offset or the error already recorded on this state's path
+    pub proof fn thm_C10_C04_failed_error<'a, T>(state: ParseState<'a>, r: ParseResult<'a, T>, sp: ParseErrorSpecifics, input: Seq<u8>)
+        requires state.wf(input), failed(state, r, sp),
+        ensures r matches Err(e) && err_ok(e, input) && e.position >= state.idx()
+            && (e == state.own_error(sp) || (Some(e) == state.far() && e.position > state.idx())),
+    {
+    }
+
+    // C10: record_error keeps a well-formed state well-formed and the recorded error is the furthest so far,
+    // an equally far newer error replacing the older one
+    pub proof fn thm_C10_record_wf<'a>(s: ParseState<'a>, r: ParseState<'a>, e: ParseError, input: Seq<u8>)
+        requires
+            s.wf(input), err_ok(e, input),
+            r.idx() == s.idx(), r.rest() == s.rest(), r.far() == Some(furthest(s.far(), e)),
+        ensures
+            r.wf(input),
+            r.far()->Some_0.position >= e.position,
+            s.far() matches Some(f) ==> r.far()->Some_0.position >= f.position,
+            r.far()->Some_0 == e || Some(r.far()->Some_0) == s.far(),
+    {
+    }
+
+    // C10/C01: one step of ordered choice keeps the helper's state well-formed
+    pub proof fn thm_C10_C01_choice_step_wf<'a, T>(h: ChoiceHelper<'a, T>, o: ParseResult<'a, T>, r: ChoiceHelper<'a, T>, input: Seq<u8>)
+        requires
+            h.st().wf(input), choice_step(h, o, r),
+            o matches Err(e) ==> err_ok(e, input),
+        ensures r.st().wf(input), r.st().idx() == h.st().idx(),
+    {
+        if let Err(e) = o {
+            thm_C10_record_wf(h.st(), r.st(), e, input);
+        }
+    }
+
+    // C05/C06: the cache key (absolute offset) determines the remaining input: two states of one parse with
+    // equal keys see the same bytes and characters (they can differ only in the recorded error)
+    pub proof fn thm_C05_C06_key_determines_rest<'a>(a: ParseState<'a>, b: ParseState<'a>, input: Seq<u8>)
+        requires a.wf(input), b.wf(input), a.idx() == b.idx(),
+        ensures a.bytes() =~= b.bytes(), a.chars() =~= b.chars(),
+    {
+        encode_utf8_decode_utf8(a.chars());
+        encode_utf8_decode_utf8(b.chars());
+    }
+
+    // C09/C02/C04: between two states of one parse, slice_until()'s precondition holds and the slice is
+    // exactly the input bytes between the two offsets, which both are character boundaries
+    pub proof fn thm_C09_C02_slice_is_span<'a>(a: ParseState<'a>, b: ParseState<'a>, input: Seq<u8>)
+        requires a.wf(input), b.wf(input), a.idx() <= b.idx(),
+        ensures
+            a.reaches(&b),
+            a.bytes().subrange(0, b.idx() - a.idx()) =~= input.subrange(a.idx() as int, b.idx() as int),
+            is_char_boundary(input, a.idx() as int), is_char_boundary(input, b.idx() as int),
+    {
+        broadcast use group_lib;
+        let n = b.idx() - a.idx();
+        let t = input.subrange(a.idx() as int, input.len() as int);
+        valid_utf8_split(input, a.idx() as int);
+        if b.idx() == input.len() {
+            is_char_boundary_start_end_of_seq(t);
+        } else {
+            is_char_boundary_iff_not_is_continuation_byte(input, b.idx() as int);
+            is_char_boundary_iff_not_is_continuation_byte(t, n);
+            assert(t[n] == input[b.idx() as int]);
+        }
+    }
+
+    // C08: ws_prefix_len is the length of the maximal prefix of the five ASCII whitespace bytes
+    pub proof fn thm_C08_ws_prefix_maximal(b: Seq<u8>)
+        ensures
+            0 <= ws_prefix_len(b) <= b.len(),
+            forall|i: int| 0 <= i < ws_prefix_len(b) ==> is_ws_byte(#[trigger] b[i]),
+            ws_prefix_len(b) < b.len() ==> !is_ws_byte(b[ws_prefix_len(b)]),
+        decreases b.len(),
+    {
+        if b.len() > 0 && is_ws_byte(b[0]) {
+            let t = b.subrange(1, b.len() as int);
+            thm_C08_ws_prefix_maximal(t);
+            assert forall|i: int| 0 <= i < ws_prefix_len(b) implies is_ws_byte(#[trigger] b[i]) by {
+                if i > 0 { assert(b[i] == t[i - 1]); }
+            }
+            if ws_prefix_len(b) < b.len() {
+                assert(b[ws_prefix_len(b)] == t[ws_prefix_len(t)]);
+            }
+        }
+    }
+
+    // C08: the near misses named in the property are not whitespace: \x0B, and the lead bytes of U+00A0 (C2 A0)
+    // and U+2003 (E2 80 83); no byte >= 0x80 is, so the skipper can never stop inside a multi-byte character
+    pub proof fn thm_C08_near_misses()
+        ensures
+            !is_ws_byte(0x0B), !is_ws_byte(0xC2), !is_ws_byte(0xE2),
+            is_ws_byte(0x20), is_ws_byte(0x09), is_ws_byte(0x0A), is_ws_byte(0x0C), is_ws_byte(0x0D),
+            forall|b: u8| b >= 0x80 ==> !is_ws_byte(b),
+    {
+    }
+
+    // C01: the case-insensitive matchers implement ASCII case-insensitive equality when the literal has been
+    // lower-cased (which is what the generator passes)
+    pub open spec fn eq_ignore_ascii_case(a: Seq<u8>, b: Seq<u8>) -> bool {
+        a.len() == b.len() && forall|i: int| 0 <= i < a.len() ==> lower_byte(#[trigger] a[i]) == lower_byte(b[i])
+    }
+
+    pub proof fn thm_C01_insensitive_is_case_fold(input: Seq<u8>, lit: Seq<u8>)
+        requires forall|i: int| 0 <= i < lit.len() ==> lower_byte(#[trigger] lit[i]) == lit[i],
+        ensures istr_matches(input, lit) <==> (lit.len() <= input.len() && eq_ignore_ascii_case(input.subrange(0, lit.len() as int), lit)),
+    {
+        if lit.len() <= input.len() {
+            let p = input.subrange(0, lit.len() as int);
+            if istr_matches(input, lit) {
+                assert forall|i: int| 0 <= i < p.len() implies lower_byte(#[trigger] p[i]) == lower_byte(lit[i]) by {
+                    assert(p[i] == input[i]);
+                }
+            }
+            if eq_ignore_ascii_case(p, lit) {
+                assert forall|i: int| 0 <= i < lit.len() implies lower_byte(#[trigger] input[i]) == lit[i] by {
+                    assert(p[i] == input[i]);
+                }
+            }
+        }
+    }
+
+    // C01/C04: lower_byte never maps a non-ASCII byte to an ASCII one, so a successful insensitive match of an
+    // ASCII literal consumed ASCII bytes only
+    pub proof fn thm_C04_lower_byte_ascii(b: u8)
+        ensures (lower_byte(b) < 0x80) <==> (b < 0x80),
+    {
+    }
+
+    // C07: the grow loop's comparison is strict, so each accepted growth strictly decreases the remaining
+    // input; at most |input| + 1 growths are possible
+    pub proof fn thm_C07_growth_measure<'a>(old_best: ParseState<'a>, new_best: ParseState<'a>, input: Seq<u8>)
+        requires old_best.wf(input), new_best.wf(input), new_best.idx() > old_best.idx(),
+        ensures input.len() - new_best.idx() < input.len() - old_best.idx(), input.len() - new_best.idx() >= 0,
+    {
+    }
+}
